@@ -58,6 +58,7 @@ def jobs(tier):
         out.append(("failed-recheck-then-recheck.v%d" % version, "job_rr_failed", dict(version=version, failed=True)))
     for which in ("1", "2a", "3a"):
         out.append(("failed-create-then-create.%s" % which, "job_failed_create", dict(which=which, dangling=True)))
+    out.append(("rebuild-other-torrent-then-rebuild", "job_rebuild_two", dict(two=True)))
     out.append(("verbose-command-then-rebuild", "job_verbose_rebuild", dict(verbose=True)))
     out.append(("edit-edit", "job_ee", {}))
     out.append(("create-magnet-edit-magnet", "job_magnet", {}))
@@ -281,6 +282,49 @@ def job_failed_create(E, which, dangling=True, _mutants=None):
     fresh = do_create(E, World(fs.clone(), mutants=_mutants), which, P, "fresh")
     E.check(same(got, fresh), "C09.create-after-failed-create",
             "after a failed create (%r) the next one gives %s, a fresh process %s" % (first, _brief(got), _brief(fresh)))
+
+
+def job_rebuild_two(E, two=True, _mutants=None):
+    """Two different v1 torrents that both contain a file called data.bin, rebuilt one after the other by one process
+    from a search tree that holds the files of both: the second rebuild equals a fresh process's."""
+    from symx import refs
+    from symx.abuf import ABuf
+    P = 16384
+    fs = AFS(order="reversed")
+    s0, s1, s2 = E.int("s0", P, 2 * P), E.int("s1", P, 2 * P), E.int("s2", 1, P)
+    E.note("shape", "two-torrents")
+    fs.add("/src/one/data.bin", ("f", 0), s0)
+    fs.add("/src/two/data.bin", ("g", 0), s1)
+    fs.add("/src/two/other.bin", ("g", 1), s2)
+
+    def v1meta(name, files):
+        stream = ABuf.of([])
+        lst = []
+        for comps, fid, n in files:
+            lst.append({"length": n, "path": list(comps)})
+            stream.extend(ABuf.file(fid, n))
+        return {"info": {"files": lst, "name": name, "piece length": P, "pieces": refs.v1_pieces(stream, P)}}
+    fs.add_token("/t/one.torrent", BenTok(v1meta("first", [(["data.bin"], ("f", 0), s0), (["pad.bin"], ("f", 9), 0)])))
+    fs.add_token("/t/two.torrent", BenTok(v1meta("second", [(["data.bin"], ("g", 0), s1), (["other.bin"], ("g", 1), s2)])))
+    fs.mkdirs("/dest1")
+    fs.mkdirs("/dest2")
+    fsf = fs.clone()
+    w = World(fs, mutants=_mutants)
+    try:
+        RB = w.mod("rebuild")
+        RB.Assembler(["/t/one.torrent"], ["/src"], "/dest1").assemble_torrents()
+        n2 = RB.Assembler(["/t/two.torrent"], ["/src"], "/dest2").assemble_torrents()
+        n3 = World(fsf, mutants=_mutants).mod("rebuild").Assembler(["/t/two.torrent"], ["/src"], "/dest2").assemble_torrents()
+    except Unsupported:
+        raise
+    except Exception as ex:  # noqa: BLE001
+        E.fail("C09.rebuild.no-exception", "%s: %s" % (type(ex).__name__, ex))
+        return
+    E.check(n2 == n3, "C09.rebuild-after-other-torrent.count", "second rebuild in the same process counts %r, a fresh process %r" % (n2, n3))
+    d2 = sorted(p for p in fs.files if p.startswith("/dest2/"))
+    d3 = sorted(p for p in fsf.files if p.startswith("/dest2/"))
+    E.check(d2 == d3 and all(fs.files[p].content == fsf.files[p].content for p in d2), "C09.rebuild-after-other-torrent.tree",
+            "destination of the second rebuild: %r, in a fresh process: %r" % (d2, d3))
 
 
 def job_verbose_rebuild(E, verbose=True, _mutants=None):
@@ -660,6 +704,49 @@ def _replay_failed_create(params, model, workdir, seed):
     return [] if got == fr else ["C09.create-after-failed-create"]
 
 
+def _replay_rebuild_two(params, model, workdir, seed):
+    import io
+    import contextlib
+    P = 16384
+    s0, s1, s2 = int(model["s0"]), int(model["s1"]), int(model["s2"])
+    a, b, c = refconc.content(("f", 0), s0, seed), refconc.content(("g", 0), s1, seed), refconc.content(("g", 1), s2, seed)
+    for root in ("p1", "p2"):
+        base = os.path.join(workdir, root)
+        refconc.write_file(base + "/src/one/data.bin", a)
+        refconc.write_file(base + "/src/two/data.bin", b)
+        refconc.write_file(base + "/src/two/other.bin", c)
+        refconc.write_file(base + "/t/one.torrent", refconc.bencode(refconc.build_meta([(["data.bin"], a), (["pad.bin"], b"")], P, 1, name="first")))
+        refconc.write_file(base + "/t/two.torrent", refconc.bencode(refconc.build_meta([(["data.bin"], b), (["other.bin"], c)], P, 1, name="second")))
+        os.makedirs(base + "/dest1")
+        os.makedirs(base + "/dest2")
+    mods = cr.real_torrentfile()
+    b1 = os.path.join(workdir, "p1")
+    real_listdir = os.listdir
+    os.listdir = lambda p=".": sorted(real_listdir(p), reverse=True)
+    try:
+        with contextlib.redirect_stdout(io.StringIO()):
+            RB = mods["torrentfile.rebuild"]
+            RB.Assembler([b1 + "/t/one.torrent"], [b1 + "/src"], b1 + "/dest1").assemble_torrents()
+            n2 = RB.Assembler([b1 + "/t/two.torrent"], [b1 + "/src"], b1 + "/dest2").assemble_torrents()
+    except Exception as ex:  # noqa: BLE001
+        return ["C09.rebuild.no-exception: %s: %s" % (type(ex).__name__, ex)]
+    finally:
+        os.listdir = real_listdir
+    b2 = os.path.join(workdir, "p2")
+    code = ("import json, io, contextlib, os\nimport torrentfile.rebuild as RB\nw = sys.argv[1]\n"
+            "_l = os.listdir\nos.listdir = lambda p='.': sorted(_l(p), reverse=True)\n"
+            "with contextlib.redirect_stdout(io.StringIO()):\n"
+            "    n = RB.Assembler([w + '/t/two.torrent'], [w + '/src'], w + '/dest2').assemble_torrents()\n"
+            "print(json.dumps(n))\n")
+    n3 = _fresh(code, workdir, b2)
+    bad = []
+    if n2 != n3:
+        bad.append("C09.rebuild-after-other-torrent.count (%r vs %r)" % (n2, n3))
+    if refconc.snapshot(b1 + "/dest2") != refconc.snapshot(b2 + "/dest2"):
+        bad.append("C09.rebuild-after-other-torrent.tree")
+    return bad
+
+
 def _replay_verbose_rebuild(params, model, workdir, seed):
     import io
     import contextlib
@@ -735,6 +822,8 @@ def replay(params, model, notes, workdir, seed):
         return _replay_rr_failed(params, model, workdir, seed)
     if params.get("verbose"):
         return _replay_verbose_rebuild(params, model, workdir, seed)
+    if params.get("two"):
+        return _replay_rebuild_two(params, model, workdir, seed)
     if params.get("dangling"):
         return _replay_failed_create(params, model, workdir, seed)
     if set(params) == {"version"} and notes.get("shape") == "flat2" and "t0" not in model:
